@@ -52,6 +52,15 @@ Holds(c) ==
       [] R.kind = "diag" /\ c = "needs" -> R.needs = NeedsRepairDef(R.F)
       [] R.kind = "diag" /\ c = "singular" -> SeqSet(R.sing) = SingularVertsDef(R.F) /\ Len(R.sing) = Cardinality(SeqSet(R.sing))
       [] R.kind = "diag" /\ c = "inconsistent" -> SeqSet(R.incons) = DirInconsistent(R.F)
+      \* the pointer mesh's fan search: one row per vertex, the cluster sizes are the component sizes of the fan
+      [] R.kind = "diag" /\ c = "clusters" ->
+            R.panic = "" =>
+                /\ {R.clusters[k][1] : k \in 1..Len(R.clusters)} = VertSet(R.F) /\ Len(R.clusters) = Cardinality(VertSet(R.F))
+                /\ \A k \in 1..Len(R.clusters) :
+                      LET row == R.clusters[k]
+                          comps == FanComponents(R.F, row[1]) IN
+                      /\ Len(row) - 1 = Cardinality(comps)
+                      /\ \A n \in 1..Len(R.F) : Cardinality({j \in 2..Len(row) : row[j] = n}) = Cardinality({C \in comps : Cardinality(C) = n})
       [] R.kind = "diag" /\ c = "orientable" -> R.orientable = OrientableDef(R.F)
       [] R.kind = "diag" /\ c = "orientations" ->
             (ManifoldWithBoundary(R.F) /\ OrientableDef(R.F)) =>
@@ -78,7 +87,7 @@ Holds(c) ==
             \A i \in 1..Len(R.probes) : R.probes[i].hit = (Len(R.probes[i].in) % 2 = 1)
       [] OTHER -> TRUE
 Clauses == {"panic", "needs", "singular", "inconsistent", "orientable", "manifold2", "inconsistent2", "repair", "normals",
-            "nesting", "evenodd", "orientations", "dcrepair", "selfint"}
+            "nesting", "evenodd", "orientations", "dcrepair", "selfint", "clusters"}
 Fails == {c \in Clauses : ~Holds(c)}
 Init == rec \in 1..Len(Recs) /\ done = FALSE
 Next == /\ ~done /\ done' = TRUE /\ UNCHANGED rec
